@@ -229,7 +229,9 @@ async fn run(plan: Plan) -> Outcome {
 
         let event_list = events.lock().unwrap().clone();
         let success_seen = event_list.iter().any(|e| e == "Success");
-        if success_seen && workload_stage < 4 && !close_issued && !stop_issued {
+        // exactly one kind of source per round: operations are only submitted in rounds that deliver no bytes to the client
+        let for_client = broker.take_for_client(usize::MAX);
+        if success_seen && workload_stage < 6 && !close_issued && !stop_issued && for_client.is_empty() {
             // one submission per round: two ready sources at once would let select! draw lots
             match workload_stage {
                 0 => {
@@ -239,13 +241,17 @@ async fn run(plan: Plan) -> Outcome {
                 }
                 1 => { expected.push("small".into()); track_publish("small", client.publish(PublishPacket::builder("out/small".to_string(), QualityOfService::AtLeastOnce).with_payload(vec![1, 2, 3]).build(), None), &results); }
                 2 => { expected.push("big".into()); track_publish("big", client.publish(PublishPacket::builder("out/big".to_string(), QualityOfService::AtLeastOnce).with_payload(big_payload.clone()).build(), None), &results); }
-                _ => { expected.push("q0".into()); track_publish("q0", client.publish(PublishPacket::builder("out/q0".to_string(), QualityOfService::AtMostOnce).with_payload(vec![4]).build(), None), &results); }
+                3 => { expected.push("q0".into()); track_publish("q0", client.publish(PublishPacket::builder("out/q0".to_string(), QualityOfService::AtMostOnce).with_payload(vec![4]).build(), None), &results); }
+                4 => { expected.push("invalid-topic".into()); track_publish("invalid-topic", client.publish(PublishPacket::builder("bad/#".to_string(), QualityOfService::AtLeastOnce).with_payload(vec![6]).build(), None), &results); }
+                _ => {
+                    expected.push("invalid-empty-subscribe".into());
+                    let (r, f) = (results.clone(), client.subscribe(SubscribePacket::builder().build(), None)); tokio::spawn(async move { let o = f.await; r.lock().unwrap().push(("invalid-empty-subscribe".to_string(), o.is_ok())); });
+                }
             }
             workload_stage += 1;
-            submitted_workload = workload_stage == 4;
+            submitted_workload = workload_stage == 6;
         }
         let all_resolved = { let r = results.lock().unwrap(); expected.iter().all(|n| r.iter().any(|(m, _)| m == n)) };
-        let for_client = broker.take_for_client(usize::MAX);
         if received.is_empty() && for_client.is_empty() && event_list.len() == last_events { idle_rounds += 1; } else { idle_rounds = 0; }
         last_events = event_list.len();
         if submitted_workload && !stop_issued && !close_issued && all_resolved && (!inbound.lock().unwrap().is_empty() || (broker.to_client.is_empty() && idle_rounds > 4)) {
@@ -307,7 +313,8 @@ async fn run(plan: Plan) -> Outcome {
     }
     let benign = plan.reads.values().all(|d| matches!(d, ReadDev::One | ReadDev::Half | ReadDev::Block)) && plan.writes.values().all(|d| matches!(d, WriteDev::One | WriteDev::AllButOne | WriteDev::Block)) && plan.flush_errors.is_empty() && plan.controls.is_empty() && plan.refuse.is_empty();
     if benign && out.machinery.is_empty() {
-        if out.results.iter().any(|r| !r.ends_with(":ok")) { let r = out.results.clone(); out.problem("operation-failed-under-benign-transport-behaviour", format!("results {:?}", r)); }
+        for r in out.results.clone() { if r.starts_with("invalid-") && r.ends_with(":ok") { out.problem("C16:statically-invalid-operation-accepted-by-client-handle", r.clone()); } }
+        if out.results.iter().any(|r| !r.ends_with(":ok") && !r.starts_with("invalid-")) { let r = out.results.clone(); out.problem("operation-failed-under-benign-transport-behaviour", format!("results {:?}", r)); }
         if out.connections != 1 { let n = out.connections; out.problem("reconnect-under-benign-transport-behaviour", format!("{} connections", n)); }
         if inbound_now.len() != 1 { out.problem("inbound-publish-not-surfaced-exactly-once", format!("{} times", inbound_now.len())); }
     }
